@@ -309,7 +309,10 @@ func simpleSSAFont(cs []tcue, plus bool, font string) string {
 		b.WriteString("[Script Info]\nScriptType: v4.00\n\n[V4 Styles]\nFormat: Name, Fontname, Fontsize\nStyle: Default," + font + ",20\n\n[Events]\nFormat: Marked, Start, End, Style, Name, MarginL, MarginR, MarginV, Effect, Text\n")
 	}
 	for _, c := range cs {
-		t := func(ns int64) string { cs := ns / 1e7; return fmt.Sprintf("%d:%02d:%02d.%02d", cs/360000, cs/6000%60, cs/100%60, cs%100) }
+		t := func(ns int64) string {
+			cs := ns / 1e7
+			return fmt.Sprintf("%d:%02d:%02d.%02d", cs/360000, cs/6000%60, cs/100%60, cs%100)
+		}
 		first := "0"
 		if !plus {
 			first = "Marked=0"
@@ -321,9 +324,25 @@ func simpleSSAFont(cs []tcue, plus bool, font string) string {
 
 func simpleTTML(cs []tcue) string {
 	var b strings.Builder
-	b.WriteString(`<?xml version="1.0" encoding="UTF-8"?><tt xmlns="http://www.w3.org/ns/ttml"><body><div>`)
+	// the time expression form varies with the document: clock times, seconds, milliseconds, or ticks of 100 ns
+	mode := len(cs) % 4
+	if len(cs) > 0 {
+		mode = int((int64(len(cs)) + cs[0].S/1e6) % 4)
+	}
+	expr := func(ns int64) string {
+		switch ms := ns / 1e6; mode {
+		case 1:
+			return fmt.Sprintf("%d.%03ds", ms/1000, ms%1000)
+		case 2:
+			return fmt.Sprintf("%dms", ms)
+		case 3:
+			return fmt.Sprintf("%dt", ms*10000)
+		}
+		return strings.Replace(srtTime(ns), ",", ".", 1)
+	}
+	b.WriteString(`<?xml version="1.0" encoding="UTF-8"?><tt xmlns="http://www.w3.org/ns/ttml" xmlns:ttp="http://www.w3.org/ns/ttml#parameter" ttp:tickRate="10000000"><body><div>`)
 	for _, c := range cs {
-		fmt.Fprintf(&b, `<p begin="%s" end="%s">%s</p>`, strings.Replace(srtTime(c.S), ",", ".", 1), strings.Replace(srtTime(c.E), ",", ".", 1), c.T)
+		fmt.Fprintf(&b, `<p begin="%s" end="%s">%s</p>`, expr(c.S), expr(c.E), c.T)
 	}
 	b.WriteString("</div></body></tt>\n")
 	return b.String()
@@ -360,8 +379,16 @@ func cliFiles(c *fw.Ctx, r *fw.Rand, cs []tcue) (in, out string, unit int64, des
 		cs[i].S, cs[i].E = cs[i].S/fi.unit*fi.unit, cs[i].E/fi.unit*fi.unit
 	}
 	// file names as they come: blanks, commas, brackets, a percent sign, letters beyond ASCII
-	in = filepath.Join(c.TmpDir(), fw.Pick(r, []string{"in", "in", "The Good, the Bad [en] 100%", "Épisode 1 (v2)", "a*b?c"})+"."+ei)
-	out = filepath.Join(c.TmpDir(), fw.Pick(r, []string{"out", "out", "seg_%03d, [final]", "été 50% off"})+"."+eo)
+	dir := c.TmpDir()
+	if r.P(1, 6) {
+		// a path that goes through a symbolic link and back up: "cur/.." is the parent of what the link points to (the
+		// operating system resolves the link first), not the directory the link lies in
+		os.MkdirAll(filepath.Join(dir, "real", "deep"), 0o755)
+		os.Symlink(filepath.Join("real", "deep"), filepath.Join(dir, "cur"))
+		dir = dir + string(filepath.Separator) + "cur" + string(filepath.Separator) + ".."
+	}
+	in = dir + string(filepath.Separator) + fw.Pick(r, []string{"in", "in", "The Good, the Bad [en] 100%", "Épisode 1 (v2)", "a*b?c"}) + "." + ei
+	out = dir + string(filepath.Separator) + fw.Pick(r, []string{"out", "out", "seg_%03d, [final]", "été 50% off"}) + "." + eo
 	os.WriteFile(in, []byte(fi.doc(cs)), 0o644)
 	out = outPath(r, in, out)
 	if out == in {
